@@ -739,6 +739,16 @@ static void op_set_output(struct st *s)
 
 static void op_sink_script(struct st *s)
 {
+    /* how sinks treat the requests lodged on them: 0 hand over to their probe
+     * (providers answer at once), 1 answer at once, 2 keep silent; a silent
+     * sink may answer later (pipes needing a manager hold their input
+     * meanwhile) */
+    if (vh_chance(R, 1, 2)) {
+        int k2 = vh_below(R, 4);
+        if (vh_chance(R, 1, 3)) { OP("sink%d.provide_all", k2); lab_sink_provide_all(s->sinks[k2]); VH_COUNT("op.sink_provide_all"); }
+        else { int m = vh_below(R, 3); OP("sink%d.request_mode=%d", k2, m); lab_sink_set_request_mode(s->sinks[k2], m); VH_COUNT("op.sink_request_mode"); }
+        return;
+    }
     int k = vh_below(R, 4);
     bool acc = !vh_chance(R, 1, 3);
     OP("sink%d accept=%d", k, acc);
@@ -800,7 +810,38 @@ static void release_pipe(struct st *s)
     OP("release");
     lab_ev(EV_DRIVER, D_RELEASE, s->pipe_id, 0, 0, NULL, "");
     lab_sink_burst = 0; lab_sink_burst_limit = 64 + 4 * 70000; lab_burst_pipe = s->d->name; lab_steps = 0; lab_step_limit = 4000000;
+    /* a private handle of the laboratory, to see whether the pipe keeps itself
+     * alive once the application's handle is gone */
+    bool subs_alive = false;
+    for (int k = 0; k < s->nsubs; k++) if (s->subs[k] && s->d->klass == K_DUP) subs_alive = true;
+    struct upipe *obs = subs_alive ? NULL : upipe_use(s->pipe);
     upipe_release(s->pipe);
+    /* pipes draining through their own pumps (queue sink...) finish by themselves */
+    if (obs && !urefcount_single(obs->refcount) && s->d->needs_loop) mockloop_run(E.upump_mgr, R, 10000, 64);
+    if (obs && !urefcount_single(obs->refcount)) {
+        /* Pipes that buffer their input while a manager request is pending keep
+         * a reference on themselves "to avoid disappearing before all packets
+         * have been sent": with an output that never answers (or no output)
+         * they, and all they hold, outlive every handle.  Reported once, under a
+         * key of its own; then an answering output is connected so that the rest
+         * of the accounting is not about this. */
+        char key[96];
+        snprintf(key, sizeof(key), "c01:%s:alive-after-release:request-pending", s->d->name);
+        vh_violation_noabort(key, "the pipe outlives its last handle: it holds a reference on itself until a manager request is answered, which may never happen");
+        for (int k = 0; k < 4; k++) if (s->sinks[k]) { lab_sink_set_request_mode(s->sinks[k], 1); lab_sink_provide_all(s->sinks[k]); }
+        if (!urefcount_single(obs->refcount)) {
+            int free_sink = -1;
+            for (int k = 0; k < 4; k++) { bool used = false; for (int i = 0; i < s->nsubs; i++) if (s->subs[i] && s->sub_out[i] == k) used = true; if (!used) free_sink = k; }
+            if (free_sink >= 0) {
+                lab_sink_set_accept(s->sinks[free_sink], true);
+                lab_ev(EV_DRIVER, D_SET_OUTPUT, s->sink_ids[free_sink], s->pipe_id, 0, NULL, "");
+                upipe_set_output(obs, s->sinks[free_sink]);
+            }
+        }
+        mockloop_run(E.upump_mgr, R, 10000, 64);
+        VH_COUNT("c01.released_with_request_pending");
+    }
+    if (obs) upipe_release(obs);
     lab_sink_burst_limit = 0; lab_step_limit = 0;
     s->released = true;
     s->pipe = NULL;
